@@ -53,6 +53,10 @@ ASSUMPTIONS = [
     "read completely (finish in prepare, or in the first data_received with body > chunk_size)",
     "'response self-delimiting' is read off the response itself (Content-Length, chunked, or a "
     "status/method that cannot have a body)",
+    "an application-set Connection response header (keep-alive, Keep-Alive, close, x-hop; through "
+    "set_default_headers or set_header) is generated for HTTP/1.1 and HTTP/1.0 requests with all "
+    "values (the HTTP/1.0 pass-through of an application keep-alive on a closing connection was "
+    "found here and fixed in Tornado, see known_findings.json)",
     "1xx / 101 / Upgrade handling is out of scope (Connection: upgrade is only a non-close option)",
     "liveness cap: 4096 units (4 s) of virtual time beyond all scripted delays",
 ]
@@ -64,6 +68,9 @@ CONN_10 = [None, "close", "keep-alive", "Keep-Alive", "keep-alive", "TE, close",
            "upgrade", "Keep-Alive"]
 METHODS = ["GET", "HEAD", "POST", "PUT"]
 FRAMINGS = ["none", "cl", "chunked"]
+# Connection header values an application may put on its own response (set_default_headers or
+# set_header).
+APP_CONN = ["keep-alive", "Keep-Alive", "close", "x-hop"]
 HANDLERS = [("buffered", "end"), ("stream", "end"), ("stream", "prepare"), ("stream", "data")]
 # "respond early, finish late": a @stream_request_body handler that flushes the start of its
 # response from prepare() / the first data_received(), then reads the whole body and finishes
@@ -148,6 +155,11 @@ def gen(rng, tier, index):
                              or finish_at.startswith("late")):
         status = rng.choice([200, 204, 304])
     hspec0 = {"status": status, "resp_n": resp_n}
+    # the application sets a Connection response header of its own in ~1/5 of the runs
+    app_conn = None
+    app_conn_via = rng.choice(["default", "set"])
+    if rng.random() < 0.22:
+        app_conn = rng.choice(APP_CONN)
     head, rb = _request_bytes(req, hspec0)
     total = len(head) + len(rb) + (len(SECOND_REQ) if second == "together" else 0)
     mode = rng.random()
@@ -189,6 +201,7 @@ def gen(rng, tier, index):
         "req": req,
         "handler": {"kind": hkind, "finish_at": finish_at, "resp": resp, "resp_n": resp_n,
                     "status": status,
+                    "app_conn": app_conn, "app_conn_via": app_conn_via,
                     "sleep": rng.choice([0, 0, 1, 2, 5]),
                     "flush_wait": rng.random() < 0.6},
         "second": second, "split_gap": rng.choice([0, 1, 1, 2, 4]),
@@ -245,7 +258,8 @@ def simplify(scn):
              alt(("req", "conn"), None), alt(("req", "chunks"), []),
              alt(("handler", "resp"), "buffered"), alt(("handler", "kind"), "buffered"),
              alt(("handler", "flush_wait"), False), alt(("second",), "after"),
-             alt(("handler", "status"), 200),
+             alt(("handler", "status"), 200), alt(("handler", "app_conn"), None),
+             alt(("handler", "app_conn_via"), "set"),
              alt(("cuts",), []), alt(("gaps",), [])]
     conn = scn["req"].get("conn")
     if conn:
@@ -291,6 +305,10 @@ def validate(scn):
             return False
         if h.get("status", 200) not in (200, 204, 304, "etag"):
             return False
+        if h.get("app_conn") not in [None] + APP_CONN:
+            return False
+        if h.get("app_conn_via", "set") not in ("default", "set"):
+            return False
         if h.get("status") == "etag" and (req["method"] not in ("GET", "HEAD")
                                           or h["resp"] != "buffered"):
             return False
@@ -324,6 +342,19 @@ def make_app(env, hspec, trace, rapp_box):
     finish_at = hspec.get("finish_at", "end")
     flush_wait = bool(hspec.get("flush_wait", True))
     status = hspec.get("status", 200)
+    app_conn = hspec.get("app_conn")
+    app_conn_via = hspec.get("app_conn_via", "set")
+
+    def app_headers(h):
+        if app_conn and app_conn_via == "set" and not h._headers_written:
+            h.set_header("Connection", app_conn)
+
+    class Base(RequestHandler):
+        SUPPORTED_METHODS = ("GET", "HEAD", "POST", "PUT")
+
+        def set_default_headers(self):
+            if app_conn and app_conn_via == "default":
+                self.set_header("Connection", app_conn)
 
     async def respond(h):
         if h._finished or trace["responding"]:
@@ -334,6 +365,7 @@ def make_app(env, hspec, trace, rapp_box):
         trace["body_read_at_finish"] = bool(rec is not None and "F" in rec.events)
         trace["data_seen_at_finish"] = trace["data_bytes"]
         log.ev("respond", finish_at, trace["body_read_at_finish"])
+        app_headers(h)
         if status in (204, 304):
             # a response that cannot have a body: status line + headers only
             h.set_status(status)
@@ -371,6 +403,7 @@ def make_app(env, hspec, trace, rapp_box):
         rec = rapp.records[0] if rapp.records else None
         trace["body_read_at_start"] = bool(rec is not None and "F" in rec.events)
         log.ev("start_early", finish_at, trace["body_read_at_start"])
+        app_headers(h)
         if status in (204, 304):
             h.set_status(status)
         else:
@@ -398,8 +431,7 @@ def make_app(env, hspec, trace, rapp_box):
             h.write(body[len(body) // 2:])
         h.finish()
 
-    class Buffered(RequestHandler):
-        SUPPORTED_METHODS = ("GET", "HEAD", "POST", "PUT")
+    class Buffered(Base):
 
         async def _go(self):
             trace["data_bytes"] = len(self.request.body or b"")
@@ -408,8 +440,7 @@ def make_app(env, hspec, trace, rapp_box):
         get = head = post = put = _go
 
     @stream_request_body
-    class Streaming(RequestHandler):
-        SUPPORTED_METHODS = ("GET", "HEAD", "POST", "PUT")
+    class Streaming(Base):
 
         async def prepare(self):
             if finish_at == "prepare":
@@ -564,6 +595,7 @@ def _judge(scn, res, trace, bad, probe):
     r2 = finals[1] if len(finals) > 1 else None
     recs = res["records"]
     ctx = (f"{method} HTTP/{version} Connection={conn!r} body={framing} no_keep_alive={nka} "
+           f"app_connection={hspec.get('app_conn')!r} "
            f"handler={hspec.get('kind')}/{finish_at} response={hspec.get('resp')} second={second}")
     outcome = {"responses": [r.summary() for r in finals], "ended": ended, "src": res["src"],
                "error": [rr.error[0], rr.error_at] if rr.error else None,
@@ -601,6 +633,11 @@ def _judge(scn, res, trace, bad, probe):
     second_reached = any(r[1] == "/two" and r[2] for r in recs)
     probe("keep_expected" if keep else "close_expected")
     probe("delim_" + str(r1.delim))
+    app_conn = hspec.get("app_conn")
+    app_ka = "keep-alive" in _tokens(app_conn)
+    if app_conn:
+        probe("app_connection_header")
+        probe("app_connection_header_" + ("keep_expected" if keep else "close_expected"))
     if r1.code in (204, 304):
         probe("status_%d" % r1.code + ("_etag" if hspec.get("status") == "etag" else ""))
         if keep:
@@ -671,5 +708,8 @@ def _judge(scn, res, trace, bad, probe):
     if b"keep-alive" in ctoks:
         bad("close.keep_alive_acknowledged",
             f"{ctx}: 'Connection: {r1.get('connection').decode('latin1')}' sent on a connection "
-            f"that has to close ({why})", f"close.keep_alive_acknowledged/{why}")
+            f"that has to close ({why})" + (" - the header value was set by the application"
+                                            if app_ka else ""),
+            f"close.keep_alive_acknowledged/{why}" + ("/app_header" if app_ka and version == "1.0"
+                                                      and why != "early_finish" else ""))
     return outcome
